@@ -480,10 +480,12 @@ def execute(trace, env=None):
         try:
             apply_op(world, P, m, s, op, log, stats)
         except Exception as ex:
-            import traceback
-            fail('C07.history', 'operation %s raised %r' % (op['op'], ex),
-                 tb=traceback.format_exc()[-1500:])
-            return result(trace, viol, log, stats, False)
+            # What an operation of the history itself returns or raises is not
+            # C07's business (write -> C16, compile -> C08): it is recorded
+            # and the history goes on; only the observed calculation is judged.
+            stats['history_ops_raised'] = stats.get(
+                'history_ops_raised', 0) + 1
+            log.add('client', op['op'] + '-raised', err=type(ex).__name__)
     try:
         obs, ins, outs, sol, skipped = observe_calc(world, P, s, m, obs_op)
     except Exception as ex:
